@@ -10,6 +10,7 @@ from typing import (
     Dict,
     List,
     Optional,
+    Set,
     Union,
     cast,
 )
@@ -61,6 +62,7 @@ class ExprRewriter(ast.NodeTransformer, EmitterMixin):
         )
         self._top_level_node_for_symbol: Optional[ast.AST] = None
         self._annotations_postponed = False
+        self._module_level_imports: Set[str] = set()
 
     def note_future_imports(self, body: List[ast.stmt]) -> None:
         # under `from __future__ import annotations` an annotation is never evaluated: its source text is what
@@ -71,6 +73,42 @@ class ExprRewriter(ast.NodeTransformer, EmitterMixin):
             and any(alias.name == "annotations" for alias in stmt.names)
             for stmt in body
         )
+        # names bound by an import statement in the module's own scope (the compiler treats method calls on
+        # them differently, see visit_Call)
+        self._module_level_imports = set()
+        pending: List[ast.AST] = list(body)
+        while pending:
+            stmt = pending.pop()
+            if isinstance(stmt, (ast.Import, ast.ImportFrom)):
+                for alias in stmt.names:
+                    self._module_level_imports.add(
+                        alias.asname or alias.name.split(".")[0]
+                    )
+            elif not isinstance(
+                stmt, (ast.FunctionDef, ast.AsyncFunctionDef, ast.ClassDef, ast.expr)
+            ):
+                pending.extend(ast.iter_child_nodes(stmt))
+
+    def _call_is_attributed_to_method_line(self, node: ast.Call) -> bool:
+        # mirrors the conditions under which CPython compiles `obj.meth(...)` as a method call and gives the
+        # call the line of `.meth` instead of the first line of the expression
+        func = node.func
+        if not isinstance(func, ast.Attribute):
+            return False
+        if getattr(func, "end_lineno", None) is None or node.lineno == func.end_lineno:
+            return False
+        if (
+            isinstance(func.value, ast.Name)
+            and func.value.id in self._module_level_imports
+        ):
+            return False
+        if len(node.args) + len(node.keywords) >= 30:
+            return False
+        if any(isinstance(arg, ast.Starred) for arg in node.args):
+            return False
+        if any(kw.arg is None for kw in node.keywords):
+            return False
+        return True
 
     def visit(self, node: ast.AST):
         ret = super().visit(node)
@@ -362,15 +400,11 @@ class ExprRewriter(ast.NodeTransformer, EmitterMixin):
         ret: Union[ast.Call, ast.IfExp] = node
         orig_node_id = id(node)
         orig_func = node.func
-        if (
-            isinstance(orig_func, ast.Attribute)
-            and getattr(orig_func, "end_lineno", None) is not None
-            and node.lineno != orig_func.end_lineno
-        ):
-            # the compiler attributes a call `obj.meth(...)` that spans several lines to the line of `.meth`
+        if self._call_is_attributed_to_method_line(node):
+            # the compiler attributes a method call `obj.meth(...)` that spans several lines to the line of `.meth`
             # (tracebacks, line events); once the callee is wrapped it is no longer an attribute, so do it here
-            node.lineno = orig_func.end_lineno
-            node.col_offset = max(orig_func.end_col_offset - len(orig_func.attr), 0)
+            node.lineno = orig_func.end_lineno  # type: ignore
+            node.col_offset = max(orig_func.end_col_offset - len(orig_func.attr), 0)  # type: ignore
 
         with self.attrsub_context(ret_as_call):
             if isinstance(ret_as_call.func, ast.Attribute):
